@@ -215,11 +215,13 @@ Fixpoint last_opt (l : list rr) : option optrr :=
   | ROpt o :: r => match last_opt r with Some o' => Some o' | None => Some o end
   | ROther :: r => last_opt r
   end.
-Fixpoint map_last_opt (f : optrr -> optrr) (l : list rr) : list rr :=
+(* SetEdns0 keeps the selected (last) OPT, rewritten by f, in its place and drops every other OPT
+   record (dropOtherOPT, RFC 6891 6.1.1); other records stay *)
+Fixpoint keep_last_opt (f : optrr -> optrr) (l : list rr) : list rr :=
   match l with
   | [] => []
-  | ROpt o :: r => if has_opt r then ROpt o :: map_last_opt f r else ROpt (f o) :: r
-  | ROther :: r => ROther :: map_last_opt f r
+  | ROpt o :: r => if has_opt r then keep_last_opt f r else ROpt (f o) :: r
+  | ROther :: r => ROther :: keep_last_opt f r
   end.
 
 (* what is left on the forwarded OPT: nothing, or one clamped copy of the client's subnet option *)
@@ -233,7 +235,7 @@ Definition new_opts (p : option policy) (client : option addr) (opts : list eopt
 
 Definition set_edns0 (p : option policy) (client : option addr) (extra : list rr) : list rr :=
   if has_opt extra
-  then map_last_opt (fun o => mk_optrr (o_version o) (new_opts p client (o_opts o))) extra
+  then keep_last_opt (fun o => mk_optrr (o_version o) (new_opts p client (o_opts o))) extra
   else extra ++ [ROpt (mk_optrr 0 [])].
 
 (* every option of every OPT record of a message *)
@@ -241,9 +243,9 @@ Definition all_options (l : list rr) : list eopt :=
   flat_map (fun r => match r with ROpt o => o_opts o | ROther => [] end) l.
 
 (* ------------------------------------------------------------------ edns handler, request side *)
-(* hasClientECS / Request.HasECS: looks at the selected OPT only *)
-Definition client_has_ecs (extra : list rr) : bool :=
-  match last_opt extra with Some o => has_ecs (o_opts o) | None => false end.
+(* hasClientECS: a subnet option in ANY OPT record of the query (Request.HasECS on the strict path,
+   where ParseWire admits at most one OPT) *)
+Definition client_has_ecs (extra : list rr) : bool := has_ecs (all_options extra).
 
 (* edns.ServeDNS for opcode 0: (marker set on the context, Some upstream-bound additional section
    if Next is called / None when the query is answered BADVERS) *)
@@ -257,26 +259,22 @@ Definition edns_serve (b : bargs) (remote : ipb) (extra : list rr) : bool * opti
 Definition ecs_count (l : list eopt) : N := N.of_nat (length (filter is_ecs l)).
 
 (* per OPT record of the reply handed to the transport: how many subnet options it carries.
-   [resp] = option lists of the OPT records of the downstream response, in order;
-   [noedns] = the client sent no OPT; [trunc] = the UDP overflow branch ran (keepOPTOnly keeps the
-   FIRST OPT, while the strip is applied to the LAST one). *)
-Fixpoint strip_last (l : list (list eopt)) : list N :=
-  match l with
-  | [] => []
-  | [_] => [0]
-  | x :: r => ecs_count x :: strip_last r
-  end.
+   [resp] = option lists of the OPT records of the downstream response, in order; [noedns] = the
+   client sent no OPT; [trunc] = the UDP overflow branch ran.  WriteMsg keeps exactly one OPT (the
+   selected one, keepOneOPT, or the writer's own), reduces a downstream OPT to its EDE options
+   (keepRelayable), merges the writer's options and strips every subnet option; without a client
+   OPT every OPT is removed. *)
 Definition reply_ecs_counts (noedns trunc : bool) (resp : list (list eopt)) : list N :=
-  if noedns then [] else
-  let shaped := match resp with [] => [0] | _ => strip_last resp end in
-  if trunc then firstn 1 shaped else shaped.
+  if noedns then [] else [0].
 
-(* BADVERS: Chain.CancelWithRcode answers with m.Extra = req.Extra, i.e. with whatever SetEdns0
-   left on the request *)
+(* BADVERS: edns clears the options of the selected OPT and answers with that bare OPT alone
+   (req.Extra = [opt]; Chain.CancelWithRcode copies req.Extra) *)
 Definition opt_ecs_counts (l : list rr) : list N :=
   flat_map (fun r => match r with ROpt o => [ecs_count (o_opts o)] | ROther => [] end) l.
+Definition badvers_reply_extra (extra : list rr) : list rr :=
+  match last_opt extra with Some o => [ROpt (mk_optrr 0 [])] | None => [] end.
 Definition badvers_reply_counts (b : bargs) (remote : ipb) (extra : list rr) : list N :=
-  opt_ecs_counts (set_edns0 (policy_of b) (addr_from_slice_unmap remote) extra).
+  opt_ecs_counts (badvers_reply_extra extra).
 
 (* ------------------------------------------------------------------ cache: keys, store *)
 Definition pfx_eqb (a b : pfx) : bool :=
@@ -393,9 +391,10 @@ Definition serve (c : ccfg) (st : store) (qy : query) (up : uresp) (aged : bool)
   match hit with
   | Some (k, e) =>
       if c_prefetch c && aged && prefetch_eligible e then
-        (* the refresh request is a copy of this request; it runs through the edns layer of the
-           cache-less sub-pipeline as client 127.0.0.255 and replaces the entry under its key *)
-        let fw2 := new_opts pol internal_client fw in
+        (* the refresh request is a copy of this request with its subnet options removed
+           (dropSubnetOptions); it runs through the edns layer of the cache-less sub-pipeline as
+           client 127.0.0.255 and replaces the entry under its key *)
+        let fw2 := new_opts pol internal_client (filter (fun o => negb (is_ecs o)) fw) in
         let e' := mk_centry (ce_q e) (ce_cd e) (ce_scope e) (entry_ttl false (c_ecs_max c) (u_ttl rf))
                             (u_ans rf) (read_response_scope (u_opts rf))
                             (request_scope pol internal_client (Some fw2)) in
